@@ -1029,3 +1029,161 @@ Proof.
   rewrite (toks_nested_elem name P (c_star :: ds) Hname Hb).
   rewrite (toks_repeater ds _ _ Hd Hne). reflexivity.
 Qed.
+
+(* ================================================================ `name{P}*N`: every copy *)
+From Emmet Require Import proofs.ConvertProofs.
+
+Definition is_ph (k : item) : bool := match k with IPh => true | _ => false end.
+Definition no_ph (P : payload) : bool := forallb (fun kt => negb (is_ph (fst kt))) (snd P).
+
+Lemma clean_toks_app a b : clean_toks (a ++ b) = clean_toks a && clean_toks b.
+Proof. apply forallb_app. Qed.
+Lemma text_tokens_clean pos T : clean_toks (text_tokens pos T) = true.
+Proof. unfold text_tokens. rewrite clean_toks_app. destruct (ws_part T); destruct (body_part T); reflexivity. Qed.
+Lemma tail_tokens_clean : forall l pos,
+  forallb (fun kt => negb (is_ph (fst kt))) l = true -> clean_toks (tail_tokens pos l) = true.
+Proof.
+  induction l as [|[k T] l' IH]; intros pos H; [reflexivity|].
+  cbn [forallb fst] in H. apply andb_prop in H. destruct H as [Hk Hl].
+  cbn [tail_tokens].
+  change (clean_toks (?t :: ?r)) with (clean_tok t && clean_toks r).
+  rewrite clean_toks_app, text_tokens_clean, (IH _ Hl). cbn [andb]. rewrite andb_true_r.
+  destruct k as [n a r ds| |ix ph]; [reflexivity|discriminate|reflexivity].
+Qed.
+Lemma payload_tokens_clean pos P : no_ph P = true -> clean_toks (payload_tokens pos P) = true.
+Proof.
+  intros H. unfold payload_tokens. rewrite clean_toks_app, text_tokens_clean. apply (tail_tokens_clean _ _ H).
+Qed.
+
+(* the value of the payload's tokens under a repeater stack, as the C02 spec [unroll] computes it *)
+Lemma value_toks_payload env reps pos P :
+  ce_text env = WNone -> payload_ok P = true ->
+  option_map (value_toks env reps) (nonempty (Some (payload_tokens pos P))) = nested_value reps P.
+Proof.
+  intros Htext Hok. unfold nested_value.
+  destruct (stringify_payload env pos P (st_of reps) Htext Hok) as [st' [_ E]].
+  cbn [st_of cs_repeaters] in E.
+  destruct (payload_tokens_shape pos reps P) as [[Et Ep]|[t [r [p [ps [Et Ep]]]]]].
+  - rewrite Et, Ep. reflexivity.
+  - rewrite Ep. rewrite Et. cbn [nonempty option_map]. rewrite <- Et, <- Ep.
+    unfold value_toks, value_acc. unfold stringify_value in E. rewrite E. reflexivity.
+Qed.
+
+Lemma flat_map_singleton {A B} (f : A -> list B) (g : A -> B) l : (forall x, f x = [g x]) -> flat_map f l = map g l.
+Proof. intros H. induction l as [|x l IH]; [reflexivity|]. cbn [flat_map map]. rewrite H, IH. reflexivity. Qed.
+
+Definition count_of (ds : str) : N := written_count (mkRep (rep_count ds) 0 false).
+
+(* text_nested_repeated.  `name{P}*N` (P without `$#`, N written as the digit string [ds]; `*0` counts as 1) with
+   a limit that does not cut it short: exactly N nodes, copy i (0-based) carrying the payload under the repeater
+   stack [(N, i)] -- so every counter in it, at whatever brace depth, prints the value of copy i+1 *)
+Theorem text_nested_repeated jsx env mr name P ds :
+  name_ok name -> payload_ok P = true -> no_ph P = true -> all_digits ds -> ds <> [] -> ce_text env = WNone ->
+  let n := count_of ds in
+  (Z.of_N n <= budget_of mr)%Z ->
+  parse_abbr jsx env mr (name ++ c_lbrace :: payload_text P ++ c_rbrace :: c_star :: ds) =
+    Ok (map (fun i => ANode (Some name) (nested_value [mkRep n i false] P) (Some (mkRep n i false)) None [] false)
+            (nseq (N.to_nat n) 0%N)).
+Proof.
+  intros Hname Hb Hnp Hd Hne Htext n Hbud. unfold parse_abbr.
+  rewrite (tokenize_nested_rep name P ds Hname Hb Hd Hne). cbv zeta. unfold nested_abbr_tokens.
+  set (ln := length name).
+  set (nt := mkTok (TLiteral name) 0 ln).
+  set (open := mkTok (TBracket true BExpr) ln (ln + 1)).
+  set (close := mkTok (TBracket false BExpr) (ln + 1 + length (payload_text P)) (ln + 1 + length (payload_text P) + 1)).
+  set (inner := payload_tokens (ln + 1) P).
+  set (tr := mkTok (TRepeater (rep_count ds) 0 false) _ _).
+  replace (([nt; open] ++ inner ++ [close]) ++ [tr]) with (nt :: open :: inner ++ [close; tr])
+    by (cbn [app]; rewrite <- app_assoc; reflexivity).
+  rewrite (parse_single jsx _ _ (block_text_rep jsx nt open close tr name inner (mkRep (rep_count ds) 0 false)
+                                  eq_refl eq_refl eq_refl eq_refl (payload_tokens_plain _ _))).
+  unfold leaf_node. cbn [lf_name lf_attrs lf_value lf_repeat lf_self].
+  set (node := TElem (Some [nt]) None (Some inner) (Some (mkRep (rep_count ds) 0 false)) false []).
+  assert (Hclean : forallb clean_node [node] = true).
+  { cbn [forallb clean_node node clean_otoks clean_oattrs clean_rep rimplicit negb andb].
+    unfold inner. rewrite (payload_tokens_clean _ P Hnp). reflexivity. }
+  assert (Htot : (total_list [node] <= budget_of mr)%Z).
+  { unfold total_list. cbn [map zsum fold_right]. rewrite total_unfold. cbn [node node_rep].
+    unfold inner_total. cbn [node elements_of' map zsum fold_right]. unfold n, count_of in Hbud. lia. }
+  rewrite (convert_enough env mr [node] Htext Hclean Htot).
+  cbn [flat_map]. rewrite app_nil_r. rewrite unroll_unfold. cbn [node node_rep]. cbv zeta.
+  fold (count_of ds). fold n.
+  destruct Hname as [Hne' HF].
+  f_equal. apply flat_map_singleton. intros i.
+  unfold node. cbn [once_u flat_map]. unfold leaf_items.
+  unfold inner. rewrite (value_toks_payload env _ _ P Htext Hb).
+  cbn [nonempty option_map].
+  assert (Hnm : name_str env [mkRep n i false] [nt] = name).
+  { unfold name_str. cbn [stringify_name]. unfold stringify. cbn [tk nt]. apply app_nil_r. }
+  rewrite Hnm. destruct name as [|c0 name']; [congruence|]. reflexivity.
+Qed.
+
+(* what a counter prints in copy i (0-based) of N: start + i, or start + N - (i+1) when reversed *)
+Lemma item_out_in_copy w a r ds n i reps :
+  item_out (mkRep n i false :: reps) (INum w a r ds) = pad w (str_of_Z (counter_value r (form_base ds) (i + 1) n)).
+Proof. reflexivity. Qed.
+
+(* ================================================================ the tokenizer BEFORE repair 86fc68a
+   (literal() took the depth it was resumed at for the depth of the text: expression_start = ctx['expression']).
+   Kept only to show that the theorems above were false for it: see C04_nested_false_before_repair. *)
+Definition consume_old (ctx : tctx) (prev : option char) (s : str) : cres * tctx :=
+  let first :=
+    orelse (field ctx s) (fun _ =>
+    orelse (repeater_placeholder s) (fun _ =>
+    orelse (repeater_number s) (fun _ =>
+    orelse (repeater ctx s) (fun _ =>
+    white_space s)))) in
+  match first with
+  | CNone =>
+      let '(v, n, e) := lit (cquote ctx) (cattr ctx) (cexpr ctx) (cexpr ctx) prev false s in
+      match n with
+      | S _ => (CTok (TLiteral v) n, mkCtx (cgroup ctx) (cattr ctx) e (cquote ctx))
+      | O =>
+          let t := orelse (operator s) (fun _ => orelse (quote s) (fun _ => bracket s)) in
+          let ctx' :=
+            match t, s with
+            | CTok (TQuote _) _, ch :: _ =>
+                mkCtx (cgroup ctx) (cattr ctx) (cexpr ctx)
+                      (match cquote ctx with
+                       | Some q => if ch =? q then None else Some ch
+                       | None => Some ch
+                       end)
+            | CTok (TBracket op b) _, _ =>
+                let d := (if op then 1 else -1)%Z in
+                match b with
+                | BGroup => mkCtx (cgroup ctx + d) (cattr ctx) (cexpr ctx) (cquote ctx)
+                | BAttr => mkCtx (cgroup ctx) (cattr ctx + d) (cexpr ctx) (cquote ctx)
+                | BExpr => mkCtx (cgroup ctx) (cattr ctx) (cexpr ctx + d) (cquote ctx)
+                end
+            | _, _ => ctx
+            end in
+          (t, ctx')
+      end
+  | _ => (first, ctx)
+  end.
+
+Fixpoint toks_old (skip : nat) (ctx : tctx) (prev : option char) (pos : nat) (s : str) : tres :=
+  match s with
+  | [] => TOk []
+  | c :: r =>
+      match skip with
+      | S k => toks_old k ctx (Some c) (S pos) r
+      | O =>
+          match consume_old ctx prev s with
+          | (CNone, _) => TErr pos
+          | (CErr off, _) => TErr (pos + off)
+          | (CTok k n, ctx') =>
+              match toks_old (pred n) ctx' (Some c) (S pos) r with
+              | TOk l => TOk (mkTok k pos (pos + n) :: l)
+              | TErr p => TErr p
+              end
+          end
+      end
+  end.
+Definition tokenize_old (s : str) : tres := toks_old 0 ctx0 None 0 s.
+(* tokenize + parse with the old tokenizer: None = the abbreviation is rejected *)
+Definition parses_old (jsx : bool) (s : str) : bool :=
+  match tokenize_old s with
+  | TErr _ => false
+  | TOk toks => match parse jsx toks with POk _ => true | PErr _ => false end
+  end.
